@@ -6,9 +6,13 @@ A case =  stacklib case header ('time_order', 'vector_order') +
   'files'     : stacklib file specs; each with 'extra': {key: value} (hand-built metadata; a key absent from the
                 dict is a key the file lacks, a value None is the Python None)
   'add_order' : indices into files
-  'meta_mode' : 'hand'    -> add_dcm(ds, meta) with meta = the extractor's values of the keys the sorter needs
-                             (PixelSpacing, ImageOrientationPatient, Rows, Columns, every tag of the spec) + 'extra'
-                'extract' -> add_dcm(ds) (dcmstack's own extraction); ground truth = extract.default_extractor(ds)
+  'meta_mode' : 'hand'    -> add_dcm(ds, meta) with meta = the DATASET's values (from the spec, `spec_truth`) of the keys
+                             the sorter needs (PixelSpacing, ImageOrientationPatient, Rows, Columns, every tag) + 'extra'
+                'extract' -> add_dcm(ds) (dcmstack's own extraction); a spec may carry 'elements' (a sequence, Siemens
+                             CSA headers, untranslated private elements) put into the data set after stacklib.build_ds
+  GROUND TRUTH of both modes is `gen_truth(case)`: computed from the case alone (what the generator put into the data
+  set / dictionary), never from the library; the dictionaries really handed to the embed step (obs['truth'], model
+  input) are compared with it by a separate clause of the oracles.
   'vo'        : voxel order string ('' = no reordering);  'via': 'wrapper' | 'nifti'
   'filter'    : {'mode': 'default'} | {'mode': 'default+extra', 'xe': [...], 'xi': [...]} | {'mode': 'none'} |
                 {'mode': 'lambda', 'name': n} | {'mode': 'regex', 'excl': [...], 'incl': [...] | None}
@@ -22,6 +26,50 @@ from props import extlib as X
 
 N9_SIG = 'c01-slice-normal-tolerance'
 MANDATORY = ['PixelSpacing', 'ImageOrientationPatient', 'Rows', 'Columns']
+
+# What the property text pins about the DEFAULT filter lives in props/c14lib.py (shared with props/c14.py Filt.oracle, so both
+# oracles agree on which names are mandatory): NAMED = the shipped exclude literals (a LOWER bound), GEOMETRY = the two names
+# that may survive (an UPPER bound on what the include list may rescue, and by the text also a lower bound).  No oracle
+# reads the lists back from the library.
+from props import c14lib
+SHIPPED_EXCL = c14lib.NAMED
+SHIPPED_INCL = c14lib.GEOMETRY
+
+
+def shipped_must_keep(key, xi=()):
+    """the default-derived filter must KEEP this key (image position / orientation, or an extra -i pattern matches)"""
+    return c14lib.is_geometry(key) or any(re.search(i, key) for i in xi)
+
+
+def shipped_must_remove(key, xe=(), xi=()):
+    """the default-derived filter must REMOVE this key: it contains a shipped exclude literal (or an extra exclude
+    pattern matches) and nothing rescues it"""
+    if shipped_must_keep(key, xi):
+        return False
+    return c14lib.default_must_filter(key) is True or any(re.search(e, key) for e in xe)
+
+
+def default_verdict_ok(key, filtered, xe=(), xi=()):
+    """None when `filtered` (the real default-derived filter's verdict) is compatible with the shipped lists, else why not"""
+    if shipped_must_keep(key, xi) and filtered:
+        return 'filters out a force-included key'
+    if shipped_must_remove(key, xe, xi) and not filtered:
+        return 'keeps a key that matches a shipped exclude literal and no include pattern'
+    return None
+
+
+def spec_verdict(fspec, key):
+    """exclude-unless-included, from the case's filter description alone; None for the default-derived filters (bounds only)"""
+    m = fspec['mode']
+    if m == 'none':
+        return False
+    if m == 'lambda':
+        return bool(LAMBDAS[fspec['name']](key))
+    if m == 'regex':
+        hit = any(re.search(e, key) for e in fspec['excl'])
+        inc = bool(fspec['incl']) and any(re.search(i, key) for i in fspec['incl'])
+        return hit and not inc
+    return None
 
 ALL_ORDERS = [''] + [''.join(p) for axes in itertools.permutations(['LR', 'AP', 'SI'])
                      for p in itertools.product(*axes)]                     # '' + the 48 codes
@@ -37,9 +85,17 @@ LAMBDAS = {
 # keys of the hand-built dictionaries: names the default filter excludes / force-includes / ignores
 HAND_KEYS = ['PatientName', 'SOPInstanceUID', 'StationName', 'ImagePositionPatient', 'CsaImage.TimeAfterStart',
              'CsaSeries.UsedPatientWeight', 'CsaImage.ImageOrientationPatient', 'SeriesDescription', 'kx', 'ky', 'nest',
-             'InstitutionAddress', 'StudyDate', 'ImageComments']
+             'InstitutionAddress', 'StudyDate', 'ImageComments',
+             # private-style, translator-prefixed, arbitrary and non-ASCII names (the filter sees them in every classification)
+             'Private_0029_1010', '[CSA Image Header Info]', 'CsaSeries.MrPhoenixProtocol.sPat.lPatientAge', 'PrivateTagData',
+             '0X29_0X1010', 'cl\u00e9_\u00df\u4e2d', 'Pati\u00ebntName', ' spaced key ', 'a.b|c(d)', 'UIDx']
 PATTERNS = ['const', 'v', 't', 'tv', 's', 'st', 'cell', 'rcell', 'missing', 'nonesome', 'allnone', 'absent_vol']
-VTYPES = ['int', 'str', 'float', 'list', 'dict']
+VTYPES = ['int', 'str', 'float', 'list', 'bool', 'elist', 'edict', 'dict']
+KEY_ALPHABET = 'abcePatientDateUIDxyz_.0123 \u00e9\u00df\u4e2d[]^$'
+
+
+def random_key(rng):
+    return ''.join(rng.choice(KEY_ALPHABET) for _ in range(rng.randrange(1, 12)))
 
 
 def mkval(vtype, x):
@@ -52,7 +108,13 @@ def mkval(vtype, x):
         return x / 4.0 + 0.5
     if vtype == 'list':
         return [float(x), 1.5, -float(x % 3)]
-    return {'a': int(x), 'b': [int(x % 2), 'q'], 'c': {'d': None}}
+    if vtype == 'bool':
+        return bool(x % 2)
+    if vtype == 'elist':                 # the empty list is a value like any other
+        return [] if x % 2 else [int(x)]
+    if vtype == 'edict':
+        return {} if x % 2 else {'n': int(x)}
+    return {'a': int(x), 'b': [int(x % 2), 'q'], 'c': {'d': None}, 'e': [], 'f': {}, 'g': bool(x % 2)}
 
 
 def pattern_value(rng, pat, vtype, cell, dims, perm):
@@ -79,10 +141,14 @@ def add_hand_meta(rng, files, dims, nkeys):
     perm = list(range(n))
     rng.shuffle(perm)
     keys = rng.sample(HAND_KEYS, min(nkeys, len(HAND_KEYS)))
+    for _ in range(rng.choice([0, 0, 1, 2])):
+        k = random_key(rng)
+        if k not in keys and k not in MANDATORY and k not in files[0]['tags'] and k not in L.GUESS_TAGS:
+            keys.append(k)
     plan = []
     for k in keys:
         pat = rng.choice(PATTERNS)
-        vtype = 'dict' if k == 'nest' else ('list' if 'Position' in k or 'Orientation' in k else rng.choice(VTYPES[:4]))
+        vtype = 'dict' if k == 'nest' else ('list' if 'Position' in k or 'Orientation' in k else rng.choice(VTYPES[:7]))
         plan.append((k, pat, vtype))
     for f in files:
         ex = {}
@@ -100,6 +166,12 @@ EXTRACT_TAGS = {                      # DICOM keywords settable on the data set,
     'NumberOfAverages': 'float', 'ImagesInAcquisition': 'int', 'ImageType': 'strlist', 'PatientID': 'str',
     'OperatorsName': 'str', 'BodyPartExamined': 'str', 'SequenceName': 'str',
 }
+# elements that are not plain keyword assignments (spec['elements']): a sequence (nested value: list of dicts), the two
+# Siemens CSA headers the default translators read (keys CsaImage.* / CsaSeries.*), an untranslated private element
+# (extracted by no default rule: it must simply not disturb anything)
+CSA_IMAGE_TAGS = [('B_value', 'IS'), ('TimeAfterStart', 'DS'), ('ImaCoilString', 'LO'), ('DiffusionGradientDirection', 'FD'),
+                  ('ImaPATModeText', 'LO')]
+CSA_SERIES_TAGS = [('UsedPatientWeight', 'IS'), ('MrProtocolVersion', 'IS'), ('tPatientPosition', 'LO')]
 
 
 def extract_value(vtype, x):
@@ -114,33 +186,169 @@ def extract_value(vtype, x):
     return ['ORIGINAL', 'P%d' % x]
 
 
+def csa_items(vr, x):
+    """(item strings stored in the CSA header, value the translator yields)"""
+    if vr == 'IS':
+        return [str(1000 + x)], 1000 + x
+    if vr == 'DS':
+        return ['%d.5' % x], x + 0.5
+    if vr == 'FD':
+        return ['0.5', '-0.25', '%d.0' % x], [0.5, -0.25, float(x)]
+    return ['T%d;X' % x], 'T%d;X' % x
+
+
+def pattern_x(pat, cell, dims, perm):
+    s, t, v = cell
+    S, T, V = dims
+    idx = s + S * (t + T * v)
+    return {'const': 3, 'v': 1 + 2 * v, 't': 2 + 3 * t, 'tv': 1 + t + T * v, 's': 1 + s, 'st': 1 + s + S * t,
+            'cell': 1 + idx, 'rcell': 1 + perm[idx], 'missing': 1 + perm[idx] % 2, 'absent_vol': 7}[pat]
+
+
 def add_extract_tags(rng, files, dims, nkeys, taken):
-    """per-file DICOM elements (set through spec['tags']) in patterns; 'missing' = element absent"""
+    """per-file DICOM elements in patterns; 'missing' = element absent.  Keyword elements go through spec['tags'],
+    the sequence / CSA / private elements through spec['elements']"""
     S, T, V = dims
     n = S * T * V
     perm = list(range(n))
     rng.shuffle(perm)
+    pats = ['const', 'v', 't', 'tv', 's', 'st', 'cell', 'rcell', 'missing', 'absent_vol']
     keys = rng.sample([k for k in sorted(EXTRACT_TAGS) if k not in taken], nkeys)
-    plan = []
-    for k in keys:
-        pat = rng.choice(['const', 'v', 't', 'tv', 's', 'st', 'cell', 'rcell', 'missing', 'absent_vol'])
-        plan.append((k, pat))
+    plan = [(k, rng.choice(pats)) for k in keys]
+    seq_pat = rng.choice(pats) if rng.random() < 0.5 else None
+    csa_i = [(nm, vr, rng.choice(pats)) for nm, vr in rng.sample(CSA_IMAGE_TAGS, rng.randrange(1, 4))] if rng.random() < 0.4 else []
+    csa_s = [(nm, vr, rng.choice(['const', 'v', 'tv'])) for nm, vr in rng.sample(CSA_SERIES_TAGS, rng.randrange(1, 3))] if csa_i and rng.random() < 0.7 else []
+    private = rng.random() < 0.3
     for f in files:
         s, t, v = f['cell']
         idx = s + S * (t + T * v)
+
+        def absent(pat):
+            return (pat == 'missing' and perm[idx] % 3 == 0) or (pat == 'absent_vol' and (t + v) % 2 == 1)
         for k, pat in plan:
-            if pat == 'missing' and perm[idx] % 3 == 0:
-                continue
-            if pat == 'absent_vol' and (t + v) % 2 == 1:
-                continue
-            x = {'const': 3, 'v': 1 + 2 * v, 't': 2 + 3 * t, 'tv': 1 + t + T * v, 's': 1 + s, 'st': 1 + s + S * t,
-                 'cell': 1 + idx, 'rcell': 1 + perm[idx], 'missing': 1 + perm[idx] % 2, 'absent_vol': 7}[pat]
-            f['tags'][k] = extract_value(EXTRACT_TAGS[k], x)
+            if not absent(pat):
+                f['tags'][k] = extract_value(EXTRACT_TAGS[k], pattern_x(pat, f['cell'], dims, perm))
+        el = {}
+        if seq_pat and not absent(seq_pat):
+            x = pattern_x(seq_pat, f['cell'], dims, perm)
+            el['seq'] = [{'CodeValue': 'c%d' % x, 'CodeMeaning': 'm'}] + ([{'CodeValue': 'd'}] if x % 2 else [])
+        for nm_el, lst in (('csa_image', csa_i), ('csa_series', csa_s)):
+            tg = []
+            for nm, vr, pat in lst:
+                if not absent(pat):
+                    tg.append({'name': nm, 'vr': vr, 'items': csa_items(vr, pattern_x(pat, f['cell'], dims, perm))[0]})
+            if lst:
+                el[nm_el] = tg
+        if private:
+            el['private'] = 'p%d' % idx
+        if el:
+            f['elements'] = el
         f['extra'] = {}
-    return [[k, p, EXTRACT_TAGS[k]] for k, p in plan]
+    return [[k, p, EXTRACT_TAGS[k]] for k, p in plan] + ([['ProcedureCodeSequence', seq_pat, 'seq']] if seq_pat else []) + \
+        [['CsaImage.' + nm, pat, vr] for nm, vr, pat in csa_i] + [['CsaSeries.' + nm, pat, vr] for nm, vr, pat in csa_s]
 
 
-def gen_filter(rng):
+def build_csa2(tags):
+    """hand-built Siemens CSA2 ('SV10') header, same layout as props/c16.py build_csa2; tags = [{name, vr, items: [str]}]"""
+    import struct
+    out = b"SV10" + b"\x04\x03\x02\x01" + struct.pack("<2I", len(tags), 77)
+    for t in tags:
+        items = [x.encode("latin-1") + b"\x00" for x in t["items"]]
+        out += struct.pack("<64si4s3i", t["name"].encode("latin-1"), len(items), t["vr"].encode("ascii"), 0, len(items), 77 if items else 205)
+        for it in items:
+            out += struct.pack("<4i", len(it), len(it), 77, len(it)) + it + b"\x00" * ((4 - len(it) % 4) % 4)
+    return out
+
+
+def apply_elements(ds, spec):
+    el = spec.get('elements') or {}
+    if 'seq' in el:
+        from pydicom.dataset import Dataset
+        from pydicom.sequence import Sequence
+        items = []
+        for d in el['seq']:
+            it = Dataset()
+            for k, v in d.items():
+                setattr(it, k, v)
+            items.append(it)
+        ds.ProcedureCodeSequence = Sequence(items)
+    if 'csa_image' in el or 'csa_series' in el:
+        ds.add_new((0x0029, 0x0010), 'LO', 'SIEMENS CSA HEADER')
+        if 'csa_image' in el:
+            ds.add_new((0x0029, 0x1010), 'OB', build_csa2(el['csa_image']))
+        if 'csa_series' in el:
+            ds.add_new((0x0029, 0x1020), 'OB', build_csa2(el['csa_series']))
+    if 'private' in el:
+        ds.add_new((0x0021, 0x0010), 'LO', 'ACME')
+        ds.add_new((0x0021, 0x1001), 'LO', el['private'])
+    return ds
+
+
+def csa_value(t):
+    vr, items = t['vr'], t['items']
+    conv = {'IS': int, 'DS': float, 'FD': float}.get(vr, str)
+    vals = [conv(x) for x in items]
+    return vals[0] if len(vals) == 1 else vals
+
+
+def dataset_truth(spec):
+    """What the data set built from `spec` SAYS, as the key -> value dictionary an extraction has to yield (keyword
+    elements as their Python values, the sequence as a list of dicts, CSA tags under their translator prefix, untranslated
+    private elements and empty CSA tags nowhere).  Written from the spec alone."""
+    d = {'SOPClassUID': '1.2.840.10008.5.1.4.1.1.4', 'SOPInstanceUID': '1.2.3.%d' % (spec['id'] + 1),
+         'SeriesInstanceUID': '1.2.3', 'SeriesNumber': 1, 'ProtocolName': 'a',
+         'Rows': spec['rows'], 'Columns': spec['cols'], 'PixelSpacing': [float(x) for x in spec['ps']],
+         'ImageOrientationPatient': [float(x) for x in spec['iop']], 'ImagePositionPatient': [float(x) for x in spec['ipp']],
+         'BitsAllocated': 16, 'BitsStored': spec.get('bits', 12), 'HighBit': spec.get('bits', 12) - 1,
+         'PixelRepresentation': spec.get('pixrep', 0), 'SamplesPerPixel': 1, 'PhotometricInterpretation': 'MONOCHROME2'}
+    for k, v in spec.get('tags', {}).items():
+        d[k] = copy.deepcopy(v)
+    el = spec.get('elements') or {}
+    if 'seq' in el:
+        d['ProcedureCodeSequence'] = copy.deepcopy(el['seq'])
+    for nm, pre in (('csa_image', 'CsaImage.'), ('csa_series', 'CsaSeries.')):
+        for t in el.get(nm, []):
+            if t['items']:
+                d[pre + t['name']] = csa_value(t)
+    return d
+
+
+def meta_truth(case, spec):
+    """the dictionary the embed step works with for this file, from the case alone"""
+    dt = dataset_truth(spec)
+    if case['meta_mode'] == 'hand':
+        meta = {k: dt[k] for k in MANDATORY}
+        for k in spec['tags']:
+            meta[k] = dt[k]
+        meta.update(copy.deepcopy(spec['extra']))
+        return meta
+    return dt
+
+
+def gen_truth(case):
+    return {spec['id']: meta_truth(case, spec) for spec in case['files']}
+
+
+REGEX_FORMS = ['^%s', '%s$', '%s', '[%s%s]%s', '%s|%s', '%s.*%s', r'\b%s', '(?:%s)+', r'%s\w', r'^[^.]*%s']
+
+
+def random_regex(rng, words):
+    """a valid pattern made from fragments of the keys that occur (so that it matches sometimes)"""
+    def frag():
+        w = rng.choice(words) or 'x'
+        a = rng.randrange(len(w))
+        return re.escape(w[a:a + rng.randrange(1, 5)]) or 'x'
+    form = rng.choice(REGEX_FORMS)
+    n = form.count('%s')
+    if form.startswith('[%s%s]'):
+        w = rng.choice([x for x in words if x] or ['k'])
+        c = w[0]
+        return '[%s%s]%s' % (re.escape(c.lower()), re.escape(c.upper()), re.escape(w[1:3]))
+    return form % tuple(frag() for _ in range(n))
+
+
+def gen_filter(rng, words=()):
+    words = [w for w in words if w] or ['Patient', 'Csa', 'kx']
     r = rng.random()
     if r < 0.3:
         return {'mode': 'default'}
@@ -149,18 +357,31 @@ def gen_filter(rng):
         return {'mode': 'default+extra', 'xe': rng.sample(lits, rng.randrange(0, 3)), 'xi': rng.sample(lits, rng.randrange(0, 3))}
     if r < 0.6:
         return {'mode': 'none'}
-    if r < 0.78:
+    if r < 0.75:
         return {'mode': 'lambda', 'name': rng.choice(sorted(LAMBDAS))}
-    regs = ['^Csa', 'Patient', 'UID$', '[kK][xy]', 'Image(Position|Comments)', 'e', r'\.', 'Time', '^nest$', 'Station|Series']
-    excl = rng.sample(regs, rng.randrange(1, 4))
-    incl = rng.choice([[], [], None, rng.sample(regs, rng.randrange(1, 3))])        # EMPTY include list is a case of its own
+    fixed = ['^Csa', 'Patient', 'UID$', '[kK][xy]', 'Image(Position|Comments)', 'e', r'\.', 'Time', '^nest$', 'Station|Series']
+
+    def pats(lo, hi):
+        return [rng.choice(fixed) if rng.random() < 0.4 else random_regex(rng, words) for _ in range(rng.randrange(lo, hi))]
+    excl = pats(1, 4)
+    incl = rng.choice([[], [], None, pats(1, 3)])        # EMPTY include list is a case of its own
     return {'mode': 'regex', 'excl': excl, 'incl': incl}
 
 
-def gen_case(rng, tier, shape_class=None, meta_mode=None, orders=None, jitter=None):
+def big_config(rng, dims):
+    """explicit time + vector ordering for an arbitrary grid size (stacklib.rand_config stops at its own size lists)"""
+    S, T, V = dims
+    return {'mode': 'timevec', 'S': S, 'T': T, 'V': V, 'orient': rng.choice(sorted(L.ORIENTS)), 'direction': rng.choice([1, -1]),
+            'gap': rng.choice([0.5, 1.0, 2.5]), 'origin': [rng.choice([-8., 0., 4.]) for _ in range(3)],
+            'rows': 2, 'cols': rng.choice([2, 3]), 'ps': [1.0, 1.0],
+            'time_order': {'key': 'EchoTime', 'abs': None}, 'vector_order': {'key': 'EchoNumbers', 'abs': None},
+            'tagrules': {'EchoTime': rng.choice(['t', 'trev']), 'EchoNumbers': 'v'}, 'consts': {}}
+
+
+def gen_case(rng, tier, shape_class=None, meta_mode=None, orders=None, jitter=None, jitter_whole=True, dims=None):
     """one conversion inside the domain (complete grid, identical orientation on every file unless `jitter`)"""
     big = tier != 'quick'
-    while True:
+    while dims is None:
         want = None
         if shape_class == 'vec_t1':
             want = 'vec'
@@ -168,7 +389,7 @@ def gen_case(rng, tier, shape_class=None, meta_mode=None, orders=None, jitter=No
             want = 'timevec'
         cfg = L.rand_config(rng, tier, want=want)
         S, T, V = cfg['S'], cfg['T'], cfg['V']
-        if S > (5 if big else 3) or T > (4 if big else 3):
+        if S > (5 if big else 4) or T > (4 if big else 3):
             continue
         if cfg['mode'] == 'vec' and T > 1:
             continue                                   # not a grid (refused): outside this stream
@@ -182,6 +403,9 @@ def gen_case(rng, tier, shape_class=None, meta_mode=None, orders=None, jitter=No
             continue
         # staggered time ordinates (a run of equal values straddling volumes) are legal; keep them
         break
+    if dims is not None:
+        cfg = big_config(rng, dims)
+        S, T, V = dims
     if jitter is not None:
         cfg['orient'] = 'ax'
         cfg['origin'] = [0.0, cfg['origin'][1], cfg['origin'][2]]
@@ -193,19 +417,20 @@ def gen_case(rng, tier, shape_class=None, meta_mode=None, orders=None, jitter=No
     else:
         plan = add_extract_tags(rng, files, dims, rng.randrange(3, 7), set(files[0]['tags']))
     if jitter is not None:
-        # one file (the first file of a later volume when there is one) gets ImageOrientationPatient[2] += jitter:
-        # its slice indicator is unchanged (x origin 0), the stack accepts it (|jitter| < 5e-5)
+        # ImageOrientationPatient[2] += jitter (slice indicator unchanged: x origin 0; the stack accepts |jitter| < 5e-5)
+        # on every file of one later volume (so that the volume's first file carries it whatever the final order), or on
+        # one single file anywhere
         cand = [f for f in files if f['cell'][1] + f['cell'][2] > 0] or files[1:] or files
-        f0 = rng.choice(cand)
-        # every file of that volume, so that the volume's first file (whatever the final order) carries the jitter
+        f0 = rng.choice(cand if jitter_whole else files)
         for f in files:
-            if f['cell'][1:] == f0['cell'][1:]:
+            if f is f0 or (jitter_whole and f['cell'][1:] == f0['cell'][1:]):
                 f['iop'] = list(f['iop'])
                 f['iop'][2] += jitter
+    words = sorted(set(k for f in files for k in list(f['tags']) + list(f.get('extra', {}))) | set(p[0] for p in plan))
     case = {'kind': '%s/%s/%dd%s' % (mode, cfg['mode'], 3 + (T > 1 or V > 1) + (V > 1), '-t1' if (T == 1 and V > 1) else ''),
             'dims': dims, 'orient': cfg['orient'], 'direction': cfg['direction'], 'plan': plan,
             'meta_mode': mode, 'vo': rng.choice(orders or ALL_ORDERS), 'via': rng.choice(['wrapper', 'nifti']),
-            'filter': gen_filter(rng)}
+            'filter': gen_filter(rng, words)}
     case.update(L.case_header(cfg))
     case['files'] = files
     case['add_order'] = L.add_order(rng, files)
@@ -215,6 +440,7 @@ def gen_case(rng, tier, shape_class=None, meta_mode=None, orders=None, jitter=No
 # ------------------------------------------------------------------------------------------------ runner
 
 def make_filter(dcmstack, spec):
+    """the meta_filter argument of DicomStack (None = the library's default)"""
     m = spec['mode']
     if m == 'default':
         return None
@@ -235,39 +461,43 @@ def plain(o):
     return X._plain(o)
 
 
-def hand_meta(extracted, spec):
-    meta = {k: extracted[k] for k in MANDATORY}
-    for k in spec['tags']:
-        if k in extracted:
-            meta[k] = extracted[k]
-    meta.update(copy.deepcopy(spec['extra']))
-    return meta
+def build_ds(spec):
+    return apply_elements(L.build_ds(spec), spec)
 
 
-def build_stack(dcmstack, case, with_meta=True):
-    """-> (stack, datasets by file index, wid: id(NiftiWrapper) -> file id, truth: file id -> dict given/extracted,
-           affs: file id -> per-file extension affine)"""
+def build_stack(dcmstack, case):
+    """-> (stack, datasets by file index, given: file id -> the dictionary the stack works with (the hand-built one, or
+    the library's own extraction: model INPUT, compared with gen_truth by the oracles))"""
     from dcmstack.extract import default_extractor
     st = dcmstack.DicomStack(time_order=L.make_ordering(dcmstack, case.get('time_order')),
                              vector_order=L.make_ordering(dcmstack, case.get('vector_order')),
                              meta_filter=make_filter(dcmstack, case['filter']))
-    dss, wid, truth, affs = {}, {}, {}, {}
+    dss, given = {}, {}
     for i in case['add_order']:
         spec = case['files'][i]
-        ds = L.build_ds(spec)
+        ds = build_ds(spec)
         dss[i] = ds
-        extracted = default_extractor(ds)
         if case['meta_mode'] == 'hand':
-            meta = hand_meta(extracted, spec)
-            truth[spec['id']] = copy.deepcopy(meta)
+            meta = meta_truth(case, spec)
+            given[spec['id']] = copy.deepcopy(meta)
             st.add_dcm(ds, meta)
         else:
-            truth[spec['id']] = extracted
+            given[spec['id']] = default_extractor(ds)
             st.add_dcm(ds)
-        w = st._files_info[-1][0]
-        wid[id(w)] = spec['id']
-        affs[spec['id']] = [[float(x) for x in row] for row in w.meta_ext.affine]
-    return st, dss, wid, truth, affs
+    return st, dss, given
+
+
+def pixel_signatures(case):
+    import numpy as np
+    sig = {}
+    for spec in case['files']:
+        npx = spec['rows'] * spec['cols']
+        vals = (np.arange(npx, dtype=np.uint32) * 7 + 31 * spec['id'] + 5) % 4000
+        key = tuple(sorted(int(x) for x in vals))
+        if key in sig:
+            raise ValueError('pixel signatures not unique')
+        sig[key] = (spec['id'], int(vals[0]))
+    return sig
 
 
 def locate(case, arr, slice_dim):
@@ -277,14 +507,7 @@ def locate(case, arr, slice_dim):
     a = np.asarray(arr)
     while a.ndim < 5:
         a = a.reshape(a.shape + (1,))
-    sig = {}
-    for spec in case['files']:
-        npx = spec['rows'] * spec['cols']
-        vals = (np.arange(npx, dtype=np.uint32) * 7 + 31 * spec['id'] + 5) % 4000
-        key = tuple(sorted(int(x) for x in vals))
-        if key in sig:
-            raise ValueError('pixel signatures not unique')
-        sig[key] = (spec['id'], int(vals[0]))
+    sig = pixel_signatures(case)
     out = {}
     for v in range(a.shape[4]):
         for t in range(a.shape[3]):
@@ -304,23 +527,28 @@ def locate(case, arr, slice_dim):
 
 
 def run_conv(case):
-    """The observation of one conversion (see module docstring of coq/Conv/CorrMeta.v)."""
+    """The observation of one conversion (see module docstring of coq/Conv/CorrMeta.v).  Only public API: the final
+    file order is read off the output ARRAY (every file is located by its pixel values), the per-file extension affine
+    from NiftiWrapper.from_dicom_wrapper on the same data set, the filter verdicts from the filter object itself."""
     import warnings
     warnings.simplefilter('ignore')
     import numpy as np
     import dcmstack
     from dcmstack import dcmmeta
-    st, dss, wid, truth, affs = build_stack(dcmstack, case)
+    from nibabel.nicom.dicomwrappers import wrapper_from_data
+    st, dss, given = build_stack(dcmstack, case)
+    ids = [case['files'][i]['id'] for i in case['add_order']]
     # the sorter's view of every file (input of Stack.Model), from the extractor / nibabel wrapper
-    absf = {}
+    absf, affs = {}, {}
     for i in case['add_order']:
         spec = case['files'][i]
         absf[spec['id']] = L.abstract_file(dcmstack, spec, dss[i], case)
+        w1 = dcmmeta.NiftiWrapper.from_dicom_wrapper(wrapper_from_data(dss[i]), copy.deepcopy(given[spec['id']]))
+        affs[spec['id']] = [[float(x) for x in row] for row in w1.meta_ext.affine]
     first = dss[case['add_order'][0]]
     vo = case['vo']
-    obs = {'files': [absf[case['files'][i]['id']] for i in case['add_order']],
-           'affs': [affs[case['files'][i]['id']] for i in case['add_order']],
-           'truth': [[case['files'][i]['id'], plain(truth[case['files'][i]['id']])] for i in case['add_order']],
+    obs = {'files': [absf[i] for i in ids], 'affs': [affs[i] for i in ids],
+           'truth': [[i, plain(given[i])] for i in ids],
            'wants_flip': L.wants_flip(dcmstack, first, vo)}
     # the permutation of the voxel reordering, from a twin stack (so that the stack under test sees only to_nifti)
     twin = build_stack(dcmstack, case)[0]
@@ -330,12 +558,11 @@ def run_conv(case):
         _, _, _, ornt = dcmstack.reorder_voxels(np.zeros(tuple(shp[:3])), twin.get_affine().copy(), vo)
         perm = [int(p) for p, f in ornt]
     obs['perm'] = perm
-    obs['def_excl'] = list(dcmstack.default_key_excl_res)
-    obs['def_incl'] = list(dcmstack.default_key_incl_res)
-    # the filter's verdict for every key any file carries
-    filt = st._meta_filter
-    allkeys = sorted(set(k for d in truth.values() for k in d))
+    # the filter's verdict for every key any file carries (the object given to the stack; the library's default otherwise)
+    filt = make_filter(dcmstack, case['filter']) or dcmstack.default_meta_filter
+    allkeys = sorted(set(k for d in given.values() for k in d))
     obs['filt'] = [[k, bool(filt(k, None))] for k in allkeys]
+    obs['order'] = []
     try:
         if case['via'] == 'wrapper':
             w = st.to_nifti_wrapper(vo)
@@ -346,16 +573,23 @@ def run_conv(case):
         # every exception of the conversion itself is an observation (the property promises a result for every
         # complete grid): classes outside the model's enum are reported as ECrash
         obs['err'] = X.ERRMAP.get(nm) or L.ERRMAP.get(nm) or 'ECrash'
-        obs['exc'] = '%s: %s' % (nm, str(e)[:200])
-        obs['order'] = [wid[id(fi[0])] for fi in st._files_info]
+        obs['exc'] = nm
+        obs['exc_msg'] = str(e)[:200]
         return obs
-    obs['order'] = [wid[id(fi[0])] for fi in st._files_info]
     ext = w.meta_ext
     obs['ext'] = X.ext_to_json(ext)
     obs['iaff'] = [[float(x) for x in row] for row in w.nii_img.affine]
     obs['img_shape'] = [int(x) for x in w.nii_img.shape]
     obs['img_slice'] = w.nii_img.header.get_dim_info()[2]
     loc = locate(case, np.asanyarray(w.nii_img.dataobj), obs['img_slice'])
+    # final file order = data order: slice index fastest, then time, then vector component
+    sh5 = obs['img_shape'] + [1] * (5 - len(obs['img_shape']))
+    nS, nT = sh5[obs['img_slice']], sh5[3]
+    pos = {}
+    for fid, ix in loc.items():
+        ix5 = list(ix) + [0] * (5 - len(ix))
+        pos[ix5[obs['img_slice']] + nS * (ix5[3] + nT * ix5[4])] = fid
+    obs['order'] = [pos[i] for i in sorted(pos)]
     look = []
     for fid in obs['order']:
         ix = loc[fid]
@@ -407,79 +641,240 @@ def cell_of(case, fid):
     return None
 
 
-def oracle_lossless(case, obs):
-    """C01 on the implementation alone: the value looked up at the voxel index of every source file equals what
-    that file carried (None where it lacked the key), for every key the filter keeps."""
-    if not isinstance(obs, dict) or 'files' not in obs:
+def same_value(a, b):
+    """structural equality with exact types (1, 1.0 and True are different values; dict order is irrelevant)"""
+    if isinstance(a, dict) and isinstance(b, dict):
+        return set(a) == set(b) and all(same_value(a[k], b[k]) for k in a)
+    if isinstance(a, (list, tuple)) and isinstance(b, (list, tuple)):
+        return len(a) == len(b) and all(same_value(x, y) for x, y in zip(a, b))
+    return type(a) is type(b) and a == b
+
+
+def crash_message(obs):
+    """an observation the runner could not produce is never a silent pass"""
+    if not isinstance(obs, dict):
+        return 'unexpected observation: %r' % (obs,)
+    if 'crash' in obs:
+        return 'unexpected exception %s: %s' % (obs.get('crash'), str(obs.get('msg'))[:200])
+    if 'files' not in obs:
+        return 'unexpected observation: keys %s' % sorted(obs)
+    return None
+
+
+def abstraction_clause(case, obs):
+    """model inputs taken from the library == the generator's truth: the dictionaries handed to the embed step, and the
+    sorter's view of every file"""
+    truth = gen_truth(case)
+    for fid, d in obs['truth']:
+        want = truth[fid]
+        for k in sorted(set(d) | set(want)):
+            if k not in want:
+                return 'extraction yields a key the data set does not carry: %r = %r (file %d)' % (k, d[k], fid)
+            if k not in d:
+                return 'extraction lacks a key the data set carries: %r = %r (file %d)' % (k, want[k], fid)
+            if not same_value(d[k], plain(want[k])):
+                return 'extraction alters a value: key %r, data set %r, extracted %r (file %d)' % (k, want[k], d[k], fid)
+    specs = {f['id']: f for f in case['files']}
+    for a in obs['files']:
+        df = L.abstraction_diff(a, L.spec_truth(specs[a['id']], case))
+        if df:
+            return 'sorter abstraction differs from the data set: field %s of file %d' % (df, a['id'])
+    return None
+
+
+def filter_view(case, obs):
+    """key -> (impl verdict, must this key be treated as filtered by the oracles)"""
+    out = {}
+    f = case['filter']
+    for k, b in obs['filt']:
+        sv = spec_verdict(f, k)
+        if sv is None:
+            sv = shipped_must_remove(k, f.get('xe', ()), f.get('xi', ()))
+        out[k] = (b, b or sv)
+    return out
+
+
+def filter_clause(case, obs):
+    """the real filter's verdicts against the case's description of the filter (exact for explicit filters, bounds for
+    the default-derived ones)"""
+    f = case['filter']
+    for k, b in obs['filt']:
+        sv = spec_verdict(f, k)
+        if sv is None:
+            why = default_verdict_ok(k, b, f.get('xe', ()), f.get('xi', ()))
+            if why:
+                return 'default filter %s: key %r, verdict %s' % (why, k, b)
+        elif sv != b:
+            return 'filter verdict differs from exclude-unless-included: key %r, filter says %s, patterns say %s' % (k, b, sv)
+    return None
+
+
+# --- N9: which values the slice-normal tolerance mismatch loses, re-derived from the case and the data placement ---
+
+def _jit(case, f):
+    base = L.ORIENTS[case['orient']]
+    return tuple(float(a) - float(b) for a, b in zip(f['iop'], base))
+
+
+def _far(a, b):
+    """the slice rows of the two per-file affines are NOT np.allclose (atol 1e-8): generated perturbations are either
+    <= 2^-36 (close) or 2^-17 (far), the boundary near 2^-26 is never approached"""
+    return any(abs(x - y) > 2.0 ** -30 for x, y in zip(a, b))
+
+
+def n9_expected(case, obs):
+    """(file id, key) -> the value the lookup returns when ONLY the N9 mechanism acts: from_sequence along time / vector
+    drops the PER-SLICE classes of an input whose slice normal is not np.allclose to the first input's.  An input is a
+    volume (its affine is its first file's; a key is per-slice in it iff its values differ between the volume's slices)
+    or, in 5-D with several time points, a vector block (affine of its first volume; per-slice iff some time point of
+    the block varies over the slices).  None when no orientation in the case is perturbed beyond the tolerance."""
+    specs = {f['id']: f for f in case['files']}
+    jit = {i: _jit(case, f) for i, f in specs.items()}
+    if not any(_far(j, (0.0,) * 6) for j in jit.values()) or 'look' not in obs:
         return None
-    if 'err' in obs:
-        return 'conversion with embedding raised %s' % obs.get('exc', obs['err'])
-    truth = {fid: d for fid, d in obs['truth']}
-    filt = dict((k, b) for k, b in obs['filt'])
+    truth = gen_truth(case)
+    keys = sorted(set(k for d in truth.values() for k in d))
+    sd = obs['img_slice']
+    place = {}
+    for fid, ix, _ in obs['look']:
+        ix5 = list(ix) + [0] * (5 - len(ix))
+        place[fid] = (ix5[sd], ix5[3], ix5[4])
+    S = 1 + max(p[0] for p in place.values())
+    T = 1 + max(p[1] for p in place.values())
+    V = 1 + max(p[2] for p in place.values())
+    at = {p: fid for fid, p in place.items()}
+    val = {(fid, k): truth[fid].get(k) for fid in truth for k in keys}
+    canon = lambda x: repr(plain(x))
+
+    def varies(t, v, k):
+        return len(set(canon(val[(at[(s, t, v)], k)]) for s in range(S))) > 1
+
+    def drop(t, v, k):
+        for s in range(S):
+            val[(at[(s, t, v)], k)] = None
+
+    def vol_jit(t, v):
+        return jit[at[(0, t, v)]]
+    if T * V == 1 or S == 1:
+        return val
+    if not (V > 1 and T > 1):
+        vols = [(t, 0) for t in range(T)] if V == 1 else [(0, v) for v in range(V)]
+        for (t, v) in vols[1:]:
+            if _far(vol_jit(t, v), vol_jit(*vols[0])):
+                for k in keys:
+                    if varies(t, v, k):
+                        drop(t, v, k)
+        return val
+    for v in range(V):
+        for t in range(1, T):
+            if _far(vol_jit(t, v), vol_jit(0, v)):
+                for k in keys:
+                    if varies(t, v, k):
+                        drop(t, v, k)
+    for v in range(1, V):
+        if _far(vol_jit(0, v), vol_jit(0, 0)):
+            for k in keys:
+                if any(varies(t, v, k) for t in range(T)):
+                    for t in range(T):
+                        drop(t, v, k)
+    return val
+
+
+def lossless_findings(case, obs):
+    """every discrepancy between a lookup and what the file carried: (message, explained by N9)"""
+    truth = gen_truth(case)
+    fv = filter_view(case, obs)
+    n9 = n9_expected(case, obs)
+    out = []
     if sorted(f for f, _, _ in obs['look']) != sorted(truth):
-        return 'not every source file was located in the output array'
+        return [('source files missing from the output array: located %s of %s' % (sorted(f for f, _, _ in obs['look']), sorted(truth)), False)]
     for fid, ix, vals in obs['look']:
         for k, v in vals:
-            if filt.get(k):
+            if fv.get(k, (False, False))[1]:
                 continue
-            want = truth[fid].get(k)
+            want = plain(truth[fid].get(k))
             if 'err' in v:
-                return 'lookup of %r at the voxel index %s of file %d raised %s' % (k, ix, fid, v['err'])
-            if v['val'] != want or type(v['val']) is not type(want):
+                out.append(('lookup raised %s: key %r at the voxel index %s of file %d' % (v['err'], k, ix, fid), False))
+            elif not same_value(v['val'], want):
                 what = 'lost' if v['val'] is None else 'altered'
-                return 'value %s: key %r at voxel index %s (file %d, cell %s): file carried %r, lookup returned %r' % (
-                    what, k, ix, fid, cell_of(case, fid), want, v['val'])
+                explained = n9 is not None and v['val'] is None and n9[(fid, k)] is None
+                out.append(('value %s: key %r at voxel index %s (file %d, cell %s): file carried %r, lookup returned %r' % (
+                    what, k, ix, fid, cell_of(case, fid), want, v['val']), explained))
+    return out
+
+
+def oracle_lossless(case, obs):
+    """C01 on the implementation alone: the value looked up at the voxel index of every source file equals what
+    that file carried (None where it lacked the key), for every key the filter keeps.  All clauses are evaluated; a
+    discrepancy that the open finding N9 does not explain is reported before one it explains."""
+    m = crash_message(obs)
+    if m:
+        return m
+    if 'err' in obs:
+        return 'conversion with embedding raised %s: %s' % (obs.get('exc', obs['err']), obs.get('exc_msg', ''))
+    found = lossless_findings(case, obs)
+    unexplained = [msg for msg, ex in found if not ex]
+    if unexplained:
+        return unexplained[0]
+    m = abstraction_clause(case, obs)
+    if m:
+        return m
+    if found:
+        return found[0][0]
     return None
 
 
 def oracle_keys(case, obs):
     """C14 on the implementation alone: key set of the extension == extracted keys minus filtered ones, modulo keys
-    that are None in every file; and with a default-derived filter no key matching an exclude pattern survives unless
-    it matches an include pattern, whatever its classification."""
-    if not isinstance(obs, dict) or 'files' not in obs:
-        return None
+    that are None in every file; the real filter agrees with the case's description of it (exactly for explicit pattern
+    lists / lambdas; for default-derived filters within the bounds of the SHIPPED lists: nothing matching a shipped
+    exclude literal and no include pattern survives, image position / orientation always do), in every classification."""
+    m = crash_message(obs)
+    if m:
+        return m
     if 'err' in obs:
-        return 'conversion with embedding raised %s' % obs.get('exc', obs['err'])
-    truth = [d for _, d in obs['truth']]
-    filt = dict((k, b) for k, b in obs['filt'])
+        return 'conversion with embedding raised %s: %s' % (obs.get('exc', obs['err']), obs.get('exc_msg', ''))
+    truth = list(gen_truth(case).values())
+    fv = filter_view(case, obs)
     have = {}
+    msgs = []
     for k, c, vs in obs['ext']['entries']:
         if k in have:
-            return 'key %r appears in two classifications' % k
+            msgs.append('key in two classifications: %r' % k)
         have[k] = c
     union = set(k for d in truth for k in d)
     some_value = set(k for d in truth for k, v in d.items() if v is not None)
     for k in sorted(have):
         if k not in union:
-            return 'key %r (%s) of the extension was extracted from no file' % (k, have[k])
-        if filt.get(k):
-            return 'key %r survives in %s although the filter returns True for it' % (k, have[k])
+            msgs.append('key of the extension was extracted from no file: %r (%s)' % (k, have[k]))
+        elif fv.get(k, (False, False))[0]:
+            msgs.append('filtered key survives: %r in %s although the filter returns True for it' % (k, have[k]))
+        elif fv.get(k, (False, False))[1]:
+            msgs.append('privacy: key %r (%s) matches an exclude pattern and no include pattern but survives' % (k, have[k]))
     for k in sorted(some_value):
-        if not filt.get(k) and k not in have:
-            return 'key %r is not filtered and has a value in some file but is missing from the extension' % k
-    mode = case['filter']['mode']
-    if mode in ('default', 'default+extra'):
-        excl = list(obs['def_excl']) + case['filter'].get('xe', [])       # the lists the implementation really uses
-        incl = list(obs['def_incl']) + case['filter'].get('xi', [])
-        # what the property names explicitly must be on the exclude list
-        for nm in ('Patient', 'Physician', 'Date', 'UID', 'Institution'):
-            if nm not in obs['def_excl']:
-                return 'default exclude list lacks %r' % nm
-        for k in sorted(have):
-            if any(re.search(e, k) for e in excl) and not any(re.search(i, k) for i in incl):
-                return 'privacy: key %r (%s) matches an exclude pattern and no include pattern but survives' % (k, have[k])
-    return None
+        if not fv.get(k, (False, False))[0] and k not in have:
+            msgs.append('unfiltered key missing from the extension: %r has a value in some file' % k)
+    m = filter_clause(case, obs)
+    if m:
+        msgs.append(m)
+    if msgs:
+        return msgs[0]
+    return abstraction_clause(case, obs)
 
 
 def signature(prefix, case, obs, msg):
-    if case.get('n9') and ('value lost' in msg or 'missing from the extension' in msg):
-        return N9_SIG
-    return prefix + '/' + re.sub(r'[^a-z]+', '-', msg.split(':')[0].lower())[:40]
+    """N9 is re-derived: the conversion succeeded, at least one lookup lost a value, and EVERY discrepancy of the case is a
+    per-slice-varying value of an input (volume / vector block) whose slice normal differs from its merge's first input
+    (n9_expected); anything else in the same case -- a per-volume value lost, an altered value -- is a different signature"""
+    if prefix == 'c01' and isinstance(obs, dict) and 'look' in obs and 'err' not in obs and 'crash' not in obs:
+        found = lossless_findings(case, obs)
+        if found and all(ex for _, ex in found):
+            return N9_SIG
+    return prefix + '/' + re.sub(r'[^a-z0-9]+', '-', msg.split(':')[0].lower()).strip('-')[:48]
 
 
 def shrink(case):
     """drop hand keys, simplify the filter / voxel order, drop whole vector components / time points / slices"""
-    c = copy.deepcopy(case)
     if case['vo']:
         c2 = copy.deepcopy(case); c2['vo'] = ''; yield c2
     if case['filter']['mode'] != 'none':
@@ -490,12 +885,20 @@ def shrink(case):
         for f in c2['files']:
             f['extra'].pop(k, None)
         yield c2
+    if any(f.get('elements') for f in case['files']):
+        for part in ('seq', 'csa_series', 'csa_image', 'private'):
+            if any(part in (f.get('elements') or {}) for f in case['files']):
+                c2 = copy.deepcopy(case)
+                for f in c2['files']:
+                    (f.get('elements') or {}).pop(part, None)
+                    if part == 'csa_image':
+                        (f.get('elements') or {}).pop('csa_series', None)
+                yield c2
     S, T, V = case['dims']
     for ax, n in ((2, V), (1, T), (0, S)):
         if n > 1:
             c2 = copy.deepcopy(case)
             keep = [f for f in c2['files'] if f['cell'][ax] != n - 1]
-            old = {f['id']: i for i, f in enumerate(c2['files'])}
             kept_idx = [i for i, f in enumerate(c2['files']) if f['cell'][ax] != n - 1]
             remap = {i: j for j, i in enumerate(kept_idx)}
             c2['files'] = keep
@@ -508,6 +911,11 @@ def shrink(case):
 
 # ------------------------------------------------------------------------------------------------ streams
 
+def is_n9_case(case):
+    """some orientation is perturbed beyond np.allclose's tolerance (region of the open finding N9)"""
+    return any(_far(_jit(case, f), (0.0,) * 6) for f in case['files'])
+
+
 def gen_stream(rng, tier):
     n = 300 if tier == 'quick' else 2400
     cases = []
@@ -518,19 +926,27 @@ def gen_stream(rng, tier):
     orders = ALL_ORDERS if tier != 'quick' else ['', 'LAS', 'RAS', 'SLA', 'IRP', 'ASL', 'PIR', 'RSP', 'LIA', 'SPL', 'AIL', 'PLS']
     for o in orders:
         cases.append(gen_case(rng, tier, shape_class=rng.choice(['5d', 'vec_t1', None]), orders=[o]))
-    # jitter far below the np.allclose defaults must stay lossless
+    # grids beyond stacklib's size lists (S up to 6, T up to 5, V up to 4)
+    bigdims = [[4, 4, 2], [6, 2, 1], [2, 5, 1], [2, 2, 4]] if tier == 'quick' else \
+        [[4, 4, 2], [6, 2, 1], [2, 5, 1], [2, 2, 4], [6, 5, 4], [5, 5, 2], [1, 5, 4], [3, 1, 4], [6, 1, 1], [4, 3, 3], [1, 1, 4], [2, 4, 4]]
+    for d in bigdims:
+        c = gen_case(rng, tier, dims=d)
+        c['kind'] = 'big/' + c['kind']
+        cases.append(c)
+    # jitter far below the np.allclose defaults must stay lossless (a whole volume, or one single file)
     for i in range(12 if tier == 'quick' else 60):
-        c = gen_case(rng, tier, shape_class=rng.choice([None, '5d']), jitter=rng.choice([2.0 ** -40, -2.0 ** -40, 2.0 ** -36]))
+        c = gen_case(rng, tier, shape_class=rng.choice([None, '5d']), jitter=rng.choice([2.0 ** -40, -2.0 ** -40, 2.0 ** -36]),
+                     jitter_whole=bool(i % 3))
         c['kind'] = 'jitter-tiny/' + c['kind']
         cases.append(c)
     # N9 (open finding): orientation perturbed inside the stack's own tolerance but outside np.allclose's
-    for i in range(3 if tier == 'quick' else 12):
+    for i in range(4 if tier == 'quick' else 16):
         while True:
-            c = gen_case(rng, tier, shape_class='5d' if i % 2 else None, meta_mode='hand', jitter=rng.choice([2.0 ** -17, -2.0 ** -17]))
+            c = gen_case(rng, tier, shape_class='5d' if i % 2 else None, meta_mode='hand', jitter=rng.choice([2.0 ** -17, -2.0 ** -17]),
+                         jitter_whole=(i % 4 != 3))
             if c['dims'][1] * c['dims'][2] > 1 and c['dims'][0] > 1:
                 break
-        c['kind'] = 'orient_lo(N9)'
-        c['n9'] = True
+        c['kind'] = 'orient_lo(N9)' if i % 4 != 3 else 'orient_lo-one-file(N9)'
         c['filter'] = {'mode': 'none'}
         cases.append(c)
     return cases
@@ -564,11 +980,15 @@ class _Base:
 
 class LosslessPart(_Base):
     NAME = "lossless"
-    RULE = ("complete S<=3 x T<=3 x V<=3 grids (thorough S<=5, T<=4) in 7 orientations x both slice directions, explicit / "
-            "guessed ordering, shuffled add order, all 48 voxel orders + none, metadata through add_dcm(ds, meta) with a "
-            "hand-built dict (5-9 keys in 12 value patterns x 5 value types incl. lists and nested dicts, None values, "
-            "missing keys) or through dcmstack's own extraction (ground truth extract.default_extractor), 5 filter "
-            "families; shapes incl. (x,y,z,1,n) and single-slice volumes; non-trivial = 4-D/5-D result with a varying key")
+    RULE = ("complete grids S<=4 x T<=3 x V<=3 (thorough S<=5, T<=4) plus fixed larger ones up to 6x5x4, in 7 orientations x both "
+            "slice directions, explicit / guessed ordering, shuffled add order, all 48 voxel orders + none, metadata through "
+            "add_dcm(ds, meta) with a hand-built dict (5-11 keys incl. private-style / translator-prefixed / non-ASCII / random "
+            "names, 12 value patterns x 8 value types incl. bool, empty and nested lists / dicts, None values, missing keys) or "
+            "through dcmstack's own extraction of data sets with keyword elements, a sequence, Siemens CSA headers and an "
+            "untranslated private element; ground truth = what the generator put into the data set / dictionary; 5 filter "
+            "families with generated regexes; shapes incl. (x,y,z,1,n) and single-slice volumes; orientation jitter 2^-40 / 2^-36 "
+            "(must stay lossless) and 2^-17 (open finding N9) on a whole volume or one file; non-trivial = 4-D/5-D result with a "
+            "varying key")
 
     @staticmethod
     def gen_cases(rng, tier):
@@ -586,16 +1006,18 @@ class LosslessPart(_Base):
 class KeySetPart(_Base):
     """C14, conversion level: same conversions, oracle = key-set equation + default-filter privacy statement."""
     NAME = "keyset"
-    RULE = ("the conversions of C01's stream (every classification reachable through conversion, shapes incl. (x,y,z,1,n)), "
-            "filters: default, default + extra exclude/include literals, keep-all, key lambdas, make_key_regex_filter with "
-            "include list None / EMPTY / non-empty; non-trivial = a varying key exists in a 4-D/5-D result")
+    RULE = ("the conversions of C01's stream WITHOUT the region of C01's open finding N9 (C14's assumptions exclude it): every "
+            "classification reachable through conversion, shapes incl. (x,y,z,1,n); key names incl. private-style, "
+            "translator-prefixed (hand-built and real CSA headers), non-ASCII and random strings; filters: default, default + "
+            "extra exclude/include literals, keep-all, key lambdas, make_key_regex_filter with generated regexes and include "
+            "list None / EMPTY / non-empty; non-trivial = a varying key exists in a 4-D/5-D result")
 
     @staticmethod
     def gen_cases(rng, tier):
-        cases = gen_stream(rng, tier)
+        cases = [c for c in gen_stream(rng, tier) if not is_n9_case(c)]
         # more weight on default-derived filters and on hand keys with sensitive names
         for c in cases:
-            if not c.get('n9') and rng.random() < 0.35:
+            if rng.random() < 0.35:
                 c['filter'] = rng.choice([{'mode': 'default'}, {'mode': 'default+extra', 'xe': ['Csa', 'k'], 'xi': ['kx']},
                                           {'mode': 'regex', 'excl': ['Patient', 'e'], 'incl': []}])
         return cases
